@@ -90,7 +90,7 @@ fn register(name: &str, src: &str, d: Option<&Delims>) -> Result<Outcome, String
         out
     })
 }
-fn check_source(name: &str, src: &str, d: Option<&Delims>, family: &str, l: &mut Local) -> Check {
+pub fn check_source(name: &str, src: &str, d: Option<&Delims>, family: &str, l: &mut Local) -> Check {
     l.eval();
     match register(name, src, d) {
         Ok(o) => {
